@@ -459,7 +459,9 @@ func (cc *connectStreamingClientConn) Receive(msg any) error {
 		return nil
 	}
 	// See if the server sent an explicit error in the end-of-stream message.
-	mergeHeaders(cc.responseTrailer, cc.unmarshaler.Trailer())
+	// Receive may be called again after the stream has ended, so the trailers
+	// are assigned rather than appended.
+	setHeaders(cc.responseTrailer, cc.unmarshaler.Trailer())
 	if serverErr := cc.unmarshaler.EndStreamError(); serverErr != nil {
 		// This is expected from a protocol perspective, but receiving an
 		// end-of-stream message means that we're _not_ getting a regular message.
